@@ -480,9 +480,11 @@ struct Emitter {
           if (CT->getNumParams() != FT->getNumParams()) continue;
           bool ok = CT->getReturnType()->getTypeID() == FT->getReturnType()->getTypeID();
           // class hierarchy filter: the candidate's `this` class must equal or derive from the static receiver class
-          if (ok && FT->getNumParams() > 0 && FT->getParamType(0)->isPointerTy() && CT->getParamType(0)->isPointerTy()) {
-            Type* want = FT->getParamType(0)->getPointerElementType();
-            Type* have = CT->getParamType(0)->getPointerElementType();
+          // (`this` is parameter 0, or parameter 1 when the function returns a class through an sret pointer)
+          unsigned ti = (Fn->arg_size() > 0 && Fn->hasParamAttribute(0, Attribute::StructRet)) ? 1 : 0;
+          if (ok && FT->getNumParams() > ti && FT->getParamType(ti)->isPointerTy() && CT->getParamType(ti)->isPointerTy()) {
+            Type* want = FT->getParamType(ti)->getPointerElementType();
+            Type* have = CT->getParamType(ti)->getPointerElementType();
             if (want->isStructTy() && have->isStructTy()) {
               // an override in a derived class, or the implementation inherited from a base class
               bool down = derivesFrom(have, want), up = derivesFrom(want, have);
@@ -493,7 +495,7 @@ struct Emitter {
               if (ok && (encl.startswith("_ZSt8_DestroyI") || encl.contains("7destroyI")) && !(down && up)) ok = false;
             }
           }
-          for (unsigned i = 1; ok && i < CT->getNumParams(); ++i) if (CT->getParamType(i) != FT->getParamType(i)) ok = false;
+          for (unsigned i = 0; ok && i < CT->getNumParams(); ++i) if (i != ti && CT->getParamType(i) != FT->getParamType(i)) ok = false;
           if (ok && seen.insert(Fn).second) r.push_back(Fn);
         }
       }
